@@ -222,6 +222,15 @@ func (c *Client) sendRepublishRequests(ctx context.Context, sub *Subscription, a
 				c.notifySubscription(ctx, sub, res.NotificationMessage)
 				sub.lastSeq = res.NotificationMessage.SequenceNumber
 				sub.nextSeq = sub.lastSeq + 1
+
+				// the republished message stays in the retransmission queue
+				// of the server until it has been acknowledged
+				c.subMux.Lock()
+				c.pendingAcks = append(c.pendingAcks, &ua.SubscriptionAcknowledgement{
+					SubscriptionID: sub.SubscriptionID,
+					SequenceNumber: res.NotificationMessage.SequenceNumber,
+				})
+				c.subMux.Unlock()
 				debug.Printf("Republished notification %d for subscription %d", res.NotificationMessage.SequenceNumber, sub.SubscriptionID)
 
 				if len(availableSeq) > 0 && !slices.Contains(availableSeq, sub.nextSeq) {
